@@ -109,7 +109,7 @@ func mhMutations(mh string, rng *rand.Rand) map[string]string {
 		m["code-sha3-256"] = enc(append([]byte{0x16}, raw[1:]...))
 		m["code-identity"] = enc(append([]byte{0x00}, raw[1:]...))
 		m["code-two-byte"] = enc(append([]byte{0x80 | raw[0], 0x00}, raw[1:]...)) // non-minimal varint
-		m["code-large"] = enc(append([]byte{0xb2, 0x40}, raw[1:]...))              // 0x2032? blake2b range
+		m["code-large"] = enc(append([]byte{0xb2, 0x40}, raw[1:]...))             // 0x2032? blake2b range
 		m["len-minus-1"] = enc(append([]byte{raw[0], raw[1] - 1}, raw[2:]...))
 		m["len-plus-1"] = enc(append([]byte{raw[0], raw[1] + 1}, raw[2:]...))
 		m["digest-truncated"] = enc(raw[:len(raw)-1])
@@ -295,7 +295,9 @@ func (c *c08) hashFunctions(kp *world.KeyPool, dids []*world.DID, tier string) {
 		if err != nil {
 			continue
 		}
-		base := func() map[string]interface{} { return map[string]interface{}{"content": ct.label, "canonical": string(canon)} }
+		base := func() map[string]interface{} {
+			return map[string]interface{}{"content": ct.label, "canonical": string(canon)}
+		}
 		for _, code := range codes {
 			var s string
 			var e error
